@@ -9,7 +9,7 @@ from . import enc_common as E
 from .enc_common import mk, R, V
 import vlib
 
-THEOREM_FILES = ['C13', 'Enc', 'EncOps1', 'EncOps2', 'EncOps3', 'EncOps4', 'EncDefs']
+THEOREM_FILES = ['C13', 'C13b', 'Enc', 'EncOps1', 'EncOps2', 'EncOps3', 'EncOps4', 'EncDefs']
 ASSUMPTIONS = ['the feature flags of each device are taken from the code\'s own device table (extracted by execution), as the property says',
                'which flags an instruction needs is the hand-written Spec.requires']
 
